@@ -312,6 +312,7 @@ pub struct Session {
     pub retired: Vec<String>, // peer keys of connections already observed ended
     pub tls: bool,
     pub accepted_seen: HashMap<String, u64>, // per client address: connections of ours the server accepted so far
+    pub last_snap: Option<Value>, // the last snapshot that could be taken
 }
 
 #[derive(Debug)]
@@ -347,6 +348,7 @@ impl Session {
                         retired: vec![],
                         tls,
                         accepted_seen: HashMap::new(),
+                        last_snap: None,
                     }
                 }
                 Err(e) => {
@@ -599,6 +601,28 @@ impl Session {
         if let Some(c) = self.clients.get_mut(victim) {
             c.noread = true;
         }
+        if flooder == victim {
+            // the victim itself asks for long replies (hundreds of lines each) and never reads them: its task ends up
+            // blocked writing to the full socket, with input of its own still unread
+            let line = format!("NAMES {}\r\n", vec!["#x"; 600].join(","));
+            let batch: Vec<u8> = line.as_bytes().iter().cycle().take(line.len() * 40).cloned().collect();
+            for _ in 0..200 {
+                match tokio::time::timeout(Duration::from_millis(400), self.send_bytes(victim, &batch)).await {
+                    Err(_) => return Ok(()), // our own write blocks: the server no longer reads this socket
+                    Ok(Err(e)) => return Err(format!("send: {}", e)),
+                    Ok(Ok(())) => {}
+                }
+                tokio::time::sleep(Duration::from_millis(30)).await;
+                let now = std::time::SystemTime::now().duration_since(std::time::UNIX_EPOCH).map(|d| d.as_micros() as u64).unwrap_or(0);
+                let reg = verif::REG.lock().unwrap();
+                if let Some(r) = reg.conns.get(&vlocal) {
+                    if r.in_flush_since_us != 0 && now.saturating_sub(r.in_flush_since_us) > 100_000 {
+                        return Ok(());
+                    }
+                }
+            }
+            return Err("could not stall the victim by its own requests".into());
+        }
         let line = format!("PRIVMSG {} :{}\r\n", vnick, "x".repeat(1900));
         let batch: Vec<u8> = line.as_bytes().iter().cycle().take(line.len() * 400).cloned().collect();
         for _ in 0..120 {
@@ -704,8 +728,23 @@ impl Session {
     // the state as the specification sees it: the hook's projection with the
     // connection records keyed by connection id (= client address)
     pub async fn snapshot(&mut self) -> Value {
-        let raw = self.main.verif_snapshot().await;
-        let mut v: Value = serde_json::from_str(&raw).expect("snapshot json");
+        // the projection needs the state lock (shared); if a handler sits on the lock for good (the server is
+        // wedged) the last state that could be read is returned, marked "blocked"
+        let raw = match tokio::time::timeout(Duration::from_secs(8), self.main.verif_snapshot()).await {
+            Ok(r) => r,
+            Err(_) => {
+                let mut v = self.last_snap.clone().unwrap_or_else(|| json!({"conns": {}, "dead": []}));
+                v["blocked"] = Value::Bool(true);
+                return v;
+            }
+        };
+        let v = self.project(&raw);
+        self.last_snap = Some(v.clone());
+        v
+    }
+
+    fn project(&mut self, raw: &str) -> Value {
+        let mut v: Value = serde_json::from_str(raw).expect("snapshot json");
         let conns = v["conns"].as_object().cloned().unwrap_or_default();
         let mut out = Map::new();
         let mut dead = vec![];
